@@ -47,6 +47,15 @@ class _Mac:
     def digest(self):
         return self.owner.lookup(self.key, self.msg)
 
+    def hexdigest(self):
+        return self.digest().hex()
+
+    def update(self, more):
+        self.msg = (self.msg or b"") + more
+
+    def copy(self):
+        return _Mac(self.owner, self.key, self.msg)
+
 
 class OracleHmac:
     def __init__(self):
@@ -55,6 +64,21 @@ class OracleHmac:
 
     def new(self, key, msg=None, digestmod=None):
         return _Mac(self, key, msg)
+
+    @staticmethod
+    def compare_digest(a, b):
+        """hmac.compare_digest: two ASCII str or two bytes-like objects, else TypeError"""
+        if isinstance(a, str) and isinstance(b, str):
+            for ch_ in a + b:
+                if ord(ch_) > 127:
+                    raise TypeError("comparing strings with non-ASCII characters is not supported")
+            return a == b
+        if isinstance(a, str) or isinstance(b, str):
+            raise TypeError("unsupported operand types(s) or combination of types")
+        return a == b
+
+    def digest(self, key, msg, digest):
+        return self.lookup(key, msg)
 
     def lookup(self, key, msg):
         for k, m, d in self.table:
